@@ -11,13 +11,17 @@
 (* Invariants checked on the model itself:                                 *)
 (*   WellFormed          every generated document is a model value         *)
 (*   ReadInvertsRender   Read(Render(x)) = x for every instance, except    *)
-(*                       where Render is not injective (RenderClash)       *)
+(*                       where Render is not injective (RenderClash) and   *)
+(*                       in the circumstances of an open finding (Excused; *)
+(*                       the check re-runs without the excuse to see that  *)
+(*                       the model still exhibits the finding)             *)
 (*   WrongTagRejected    a document whose tag attribute was renamed is     *)
 (*                       rejected for every struct / enum type             *)
 (***************************************************************************)
 EXTENDS FormDoc, Json
 
-CONSTANTS Keys,       \* battery types of this run
+CONSTANTS Excused,    \* open findings whose (specific) circumstances excuse ReadInvertsRender
+          Keys,       \* battery types of this run
           MaxMut,     \* mutation operators applied in a row
           MutDepth    \* nesting depth down to which a mutation is applied
 
@@ -71,7 +75,14 @@ WellFormed == WF(doc)
 
 \* instances of the same type with the same rendering: no reader can tell them apart
 RenderClash == \E y \in Instances(ty) : y # inst /\ RenderKey(ty, y) = doc
-ReadInvertsRender == (ty # "" /\ hist = <<>>) => (ReadKey(ty, doc) = Ok(inst) \/ RenderClash)
+\* F1: the type has a HashMap field written as an attribute
+FieldsOf(D) == IF D.kind = "struct" THEN D.fields ELSE <<>>
+ExcuseF1 == "F1" \in Excused /\ \E i \in 1..Len(FieldsOf(TypeOf(ty))) :
+                LET f == FieldsOf(TypeOf(ty))[i] IN f.role = "attr" /\ f.ty.c = "map"
+\* F3: a body field of type Value that holds the empty record (read back as extant)
+ExcuseF3 == "F3" \in Excused /\ \E i \in 1..Len(Live(FieldsOf(TypeOf(ty)))) :
+                LET f == Live(FieldsOf(TypeOf(ty)))[i] IN f.role = "body" /\ f.ty = VAL /\ inst.v[i] = Rec(<<>>, <<>>)
+ReadInvertsRender == (ty # "" /\ hist = <<>>) => (ReadKey(ty, doc) = Ok(inst) \/ RenderClash \/ ExcuseF1 \/ ExcuseF3)
 
 Tagged(k) == TypeOf(k).kind \in {"struct", "enum"}
 WrongTagRejected == (ty # "" /\ hist = <<>> /\ Tagged(ty)) => \A m \in Local("wrongTag", doc) : ~ReadKey(ty, m).ok
